@@ -759,6 +759,8 @@ qb_log_filter_ctl2(int32_t t, enum qb_log_filter_conf c,
 {
 	struct qb_log_filter *new_flt = NULL;
 	regex_t *regex = NULL;
+	regex_t rm_regex;
+	int32_t rm_regex_set = QB_FALSE;
 	struct callsite_section *sect;
 	int32_t rc;
 
@@ -790,9 +792,24 @@ qb_log_filter_ctl2(int32_t t, enum qb_log_filter_conf c,
 
 	if (new_flt && new_flt->regex) {
 		regex = new_flt->regex;
+	} else if ((c == QB_LOG_FILTER_REMOVE || c == QB_LOG_TAG_CLEAR) &&
+		   (type == QB_LOG_FILTER_FUNCTION_REGEX ||
+		    type == QB_LOG_FILTER_FILE_REGEX ||
+		    type == QB_LOG_FILTER_FORMAT_REGEX)) {
+		/*
+		 * the stored expression went away with the rule: compile the
+		 * text once more to find the callsites the rule had selected
+		 */
+		if (regcomp(&rm_regex, text, 0) == 0) {
+			regex = &rm_regex;
+			rm_regex_set = QB_TRUE;
+		}
 	}
 	qb_list_for_each_entry(sect, &callsite_sections, list) {
 		_log_filter_apply(sect, t, c, type, text, regex, high_priority, low_priority);
+	}
+	if (rm_regex_set) {
+		regfree(&rm_regex);
 	}
 	pthread_rwlock_unlock(&_listlock);
 	return 0;
